@@ -143,6 +143,9 @@ structure Conn where
   -- mask key source: scripted draws (one per formatted frame), zeros when exhausted
   keys : List Bytes := []
   keyDraws : Nat := 0
+  -- ghost counter (never read by any operation): close frames written on the client's own initiative,
+  -- i.e. by `close()` or by the automatic reply to the server's close (explicit `send_close()` calls are the caller's)
+  ownCloses : Nat := 0
   deriving Repr, Inhabited
 
 /-! ### `_socket.recv` / `WebSocket._recv` -/
@@ -338,7 +341,7 @@ def Conn.recvDataFrameLoop : Nat → Conn → Bool → Except Exn (Nat × Frame)
       else if f.opcode == Gen.opcodeClose then
         -- `if self.connected: self.send_close()` — reply at most once per connection
         if !c.connected then (.ok (f.opcode, f), c)
-        else match c.sendClose ((Gen.statusNormal : Nat) : Int) [] with
+        else match ({ c with ownCloses := c.ownCloses + 1 } : Conn).sendClose ((Gen.statusNormal : Nat) : Int) [] with
           | (.error e, c) => (.error e, c)
           | (.ok _, c) => (.ok (f.opcode, f), c)
       else if f.opcode == Gen.opcodePing then
@@ -407,7 +410,7 @@ def Conn.close (c : Conn) (status : Int) (reason : Bytes) (timeoutMs : Option Na
   if !c.connected then (none, c)
   else if status < 0 || status ≥ (Gen.length16 : Int) then (some .valueError, c)
   else
-    let c := { c with connected := false }
+    let c := { c with connected := false, ownCloses := c.ownCloses + 1 }
     let c :=
       match c.send (beN 2 status.toNat ++ reason) Gen.opcodeClose with
       | (.error _, c) => c                        -- outer `except: pass`
